@@ -54,7 +54,10 @@ func (r *Router) route(s Sender, p stanza.Packet) {
 		}
 	}
 	iq, isIq := p.(*stanza.IQ)
-	if isIq {
+	// Only a response (result or error) can answer a pending request. A get or set that happens to
+	// carry the id of one of our own requests (ids are only unique per sender) is somebody's request:
+	// it goes to the ordinary routes and the pending request keeps waiting for its real answer.
+	if isIq && (iq.Type == stanza.IQTypeResult || iq.Type == stanza.IQTypeError) {
 		// Look the pending request up and remove it in a single critical section: however many
 		// copies of a response arrive, and on however many goroutines, only one of them gets the route.
 		r.IQResultRouteLock.Lock()
